@@ -1,6 +1,6 @@
 """C13 configuration for bin/check."""
 CFG = dict(
-    level="proof", pfile="P_C13.v", rmod="R_C13", judge="judge_C13",
+    level="proof", pfile="P_C13.v", rmod="R_C13", judge="judge_C13", shard=250,
     level_text="Theorems (all ELF program-header lists, all page-aligned biases, all page-aligned pieces of a segment's image, all addresses; "
                "no bounds): for an ET_DYN/ET_EXEC object whose PT_LOAD segment p (offset = vaddr mod 4096, file bytes present) is mapped by the "
                "loader model at bias, every address among p's own bytes inside the piece is translated by ObjAddr to address - bias or to an "
